@@ -8,6 +8,7 @@ The run-time order per request is not decided.
 from ..facts import callee, op_place, strip_generics
 from ..flow import Defs, backward_slice, slice_calls, forward_derived
 from ..quote import chains
+from ..tables import enum_switches, variant_table
 from .chains_common import chain_snapshots, chain_only_pushed, chain_always_pushed, A, BP
 from .compiler_common import PX
 
@@ -132,9 +133,32 @@ def r3_stage_assembly(ctx):
         HC = A + 'components::hydrated::HydratedComponent'
         aggs = [(bb, st) for bb, j, st in new.all_assigns() if is_stage(st)]
         ctx.need('C05.R3', 'StageIds construction in the grouping loop', aggs)
+        # the grouping may match on HydratedComponent itself, or on a small "role" enum of the module that a classifier computes from it
+        # (`PipelineRole::of`): translate the role back to the component kinds through the classifier's match (P5 table extraction)
+        role_of = {}     # role enum path -> {role variant: set(HydratedComponent variants)}
+        for x in family_bodies(ctx, 'pavexc', [PIPE + 'RequestHandlerPipeline::new']) + [y for y in ctx.fb.bodies('pavexc') if not y.is_promoted and y.nid.startswith(PIPE)]:
+            if x.is_promoted:
+                continue
+            for sb, w in enum_switches(x, HC):
+                for v, facts in variant_table(x, sb).items():
+                    for adt, var, _, _ in facts['aggs']:
+                        if adt.startswith(PIPE) and adt != PIPE + 'StageIds':
+                            role_of.setdefault(adt, {}).setdefault(var, set()).add(v)
+
+        def kinds(g):
+            v = next((vv for k, vv in g.items() if k.endswith('HydratedComponent')), None)
+            if v is not None:
+                return v
+            for e, vs in g.items():
+                if e in role_of:
+                    out = set()
+                    for r in vs:
+                        out |= role_of[e].get(r, {'?' + r})
+                    return out
+            return None
         for bb, st in aggs:
             g = guard_context(new, bb)
-            hc = next((v for k, v in g.items() if k.endswith('HydratedComponent')), None)
+            hc = kinds(g)
             if not ctx.need('C05.R3', 'match on HydratedComponent around the StageIds construction', hc):
                 break
             takes = {}
@@ -147,7 +171,7 @@ def r3_stage_assembly(ctx):
             for pb, t in new.calls():
                 if (callee(t) or '').endswith('Vec::push') and 'Idx<' in t['aty'][1]:
                     gg = guard_context(new, pb)
-                    v = next((vv for k, vv in gg.items() if k.endswith('HydratedComponent')), None)
+                    v = kinds(gg)
                     if v and len(v) == 1:
                         _, l2 = backward_slice(new, op_place(t['args'][0])['l'], defs, through_calls=False)
                         pushes.setdefault(list(v)[0], set()).update(l2)
